@@ -79,6 +79,16 @@ CHECKS = {
              "unchanged) and exactness of re-emission are decided per run, not proved.",
         note=TRUST + "regex-based _encode/_finalize_expand glue under the diff; hooks are harness-supplied tables.",
         ref="DESIGN.md section 4 C13"),
+    "C15": dict(
+        technique="Coq proofs (entity round trip and inertness for the regenerated _nowiki_map; N cookies never inspected) + oracle on expand/parse",
+        text="Theorems for every content string: c15_quote_roundtrip (decoding the entities of the map read from the current "
+             "source gives the content back when it has no '&'), c15_quote_inert (no markup character survives quoting), "
+             "c15_expander_never_inspects_nowiki and c15_finalize_prints_quoted (the expander model passes N cookies through "
+             "both passes untouched and prints exactly the quoted content). The real expand()/parse() are run on nowiki "
+             "bodies over a 58-token alphabet in 9 embedding contexts (decoded output = content, no markup left, hooks never "
+             "called, single text node) and on documents with comments vs their comment-free form.",
+        note=TRUST + "preprocess_text/_encode/tokenizer are exercised, not modelled; html.unescape on the implementation side.",
+        ref="DESIGN.md section 4 C15"),
 }
 
 NOT_YET = "check not built yet in this round (planned, see DESIGN.md section 8)"
